@@ -278,12 +278,6 @@ class MemorySource(DataSource):
 
         mapped_value = self._data.get(stix_id)
         if mapped_value:
-            if isinstance(mapped_value, _ObjectFamily):
-                stix_obj = mapped_value.latest_version
-            else:
-                stix_obj = mapped_value
-
-        if stix_obj:
             all_filters = list(
                 itertools.chain(
                     _composite_filters or [],
@@ -291,7 +285,29 @@ class MemorySource(DataSource):
                 ),
             )
 
-            stix_obj = next(apply_common_filters([stix_obj], all_filters), None)
+            if isinstance(mapped_value, _ObjectFamily):
+                # The latest of the versions which pass the filters (as the
+                # other sources do), not the latest version if it passes them.
+                stix_obj = next(
+                    apply_common_filters(
+                        [mapped_value.latest_version], all_filters,
+                    ), None,
+                )
+                if stix_obj is None and all_filters:
+                    candidates = list(
+                        apply_common_filters(
+                            mapped_value.all_versions.values(), all_filters,
+                        ),
+                    )
+                    if candidates:
+                        stix_obj = max(
+                            candidates,
+                            key=lambda obj: _timestamp_sort_key(obj["modified"]),
+                        )
+            else:
+                stix_obj = next(
+                    apply_common_filters([mapped_value], all_filters), None,
+                )
 
         return stix_obj
 
